@@ -16,6 +16,7 @@ import (
 	"github.com/deepteams/webp/internal/verifhook"
 	"github.com/deepteams/webp/verifharness/core"
 	"github.com/deepteams/webp/verifharness/gen"
+	"github.com/deepteams/webp/verifharness/ref/xref"
 	"pgregory.net/rapid"
 )
 
@@ -72,12 +73,24 @@ func genC11(t *rapid.T) *c11Case {
 			s := pool[rapid.IntRange(0, len(pool)-1).Draw(t, "seedIdx")]
 			op.Name = s.Name
 			op.File = s.Data
-			switch rapid.IntRange(0, 3).Draw(t, "damage") {
+			if g := rapid.IntRange(0, 7).Draw(t, "generated"); g == 3 || g == 4 {
+				// a freshly generated stream using syntax no encoder here writes (palette indices beyond the
+				// palette, predictor modes 14/15, every code shape ...): decoder state those leave behind,
+				// or pick up from earlier calls, is not reachable with encoder output
+				bs, _ := gen.DrawVP8L(t, 24).Build()
+				op.Name, op.File = "vp8lgen", xref.Simple("VP8L", bs)
+			} else if g == 5 {
+				op.Name, op.File = "vp8gen", xref.Simple("VP8 ", gen.DrawVP8(t, 40).Build())
+			}
+			switch rapid.IntRange(0, 4).Draw(t, "damage") {
+			case 4: // truncated, with every enclosing size field rewritten: the error surfaces inside the bitstream decoder
+				op.File = gen.TruncateFix(op.File, rapid.IntRange(0, len(op.File)).Draw(t, "cutfix"))
+				op.Name += "/cutfix"
 			case 0: // truncated
-				op.File = s.Data[:rapid.IntRange(0, len(s.Data)).Draw(t, "cut")]
+				op.File = op.File[:rapid.IntRange(0, len(op.File)).Draw(t, "cut")]
 				op.Name += "/cut"
 			case 1: // bit flip
-				b := append([]byte(nil), s.Data...)
+				b := append([]byte(nil), op.File...)
 				p := rapid.IntRange(0, len(b)-1).Draw(t, "flipAt")
 				b[p] ^= 1 << uint(rapid.IntRange(0, 7).Draw(t, "flipBit"))
 				op.File = b
